@@ -621,7 +621,8 @@ _c16()
 # ----------------------------------------------------------------------------------------------- C17
 def _c17():
     R("c17-solve-normalises-source-rs", S, "                if p == -1:  # root\n                    vi = v[n] + self._g[n]._params[\"rs\"] * ii", "                if p == -1:  # root\n                    self._g[n]._params[\"rs\"] = abs(self._g[n]._params[\"rs\"])\n                    vi = v[n] + self._g[n]._params[\"rs\"] * ii", fires=["C17"])
-    R("c17-diag-config-not-copied", D, "        bd_conf = copy.deepcopy(config)", "        bd_conf = config", fires=["C17", "C19"])
+    R("c17-diag-config-not-copied", D, "        bd_conf = copy.deepcopy(config)", "        bd_conf = config", silent=["C17", "C19"], note="nothing in _diag writes through bd_conf (nodes and clusters start from their own deep copies): reading the caller's dict in place changes nothing")
+    R("c17-diag-config-written-in-place", D, "        bd_conf = copy.deepcopy(config)\n", "        bd_conf = config\n        bd_conf[\"graph\"][\"label\"] = \"x\"\n", fires=["C17", "C19"])
     R("c17-node-conf-aliases-default", D, '        conf = copy.deepcopy(attrs["default"])', '        conf = attrs["default"]', fires=["C17", "C19"])
     R("c17-cluster-conf-aliases-default", D, '            cconf = copy.deepcopy(bd_conf["cluster"]["default"])', '            cconf = bd_conf["cluster"]["default"]', fires=["C17", "C19"])
     R("c17-state-default-written-through-alias", C, '''    def _get_state(self, phase, phase_conf={}):
@@ -702,7 +703,7 @@ def _c13():
                 raise ValueError("Parameter {} is not of the correct type".format(key))
             fparams[key] = pval''', '''            fparams[key] = pval
             if type(pval) not in cls._cparams["params"][key]["typ"]:
-                raise ValueError("Parameter {} is not of the correct type".format(key))''', fires=["C13"])
+                raise ValueError("Parameter {} is not of the correct type".format(key))''', silent=["C13"], note="the store goes to a local dict that is dropped when the type gate raises: no observable difference")
     R("c13-type-gate-isinstance", C, '            if type(pval) not in cls._cparams["params"][key]["typ"]:', '            if not isinstance(pval, tuple(cls._cparams["params"][key]["typ"])):', fires=["C13"])
     R("c13-mandatory-read-with-default", C, '                pval = _get_mand(config[cls._cparams["name"]], key)', '                pval = _get_opt(config[cls._cparams["name"]], key, None)', fires=["C13"])
     R("c13-linreg-vdrop-default", C, '        vd = _get_opt(config["linreg"], "vdrop", VDROP_DEFAULT)', '        vd = _get_opt(config["linreg"], "vdrop", 0.1)', fires=["C13"])
